@@ -204,8 +204,24 @@ func cmdCheck(args []string) int {
 	}
 	var sweepInfo []map[string]any
 	var sweepTrusted []string
+	sweepSafetyUnits := 0
+	_ = sweepSafetyUnits
 	if *only == "" {
 		for _, sw := range pc.Sweeps {
+			if sw == "safety" {
+				var paths []string
+				for _, pat := range pc.SweepPackages {
+					for path := range eng.pkgs {
+						if strings.HasPrefix(path, "honnef.co/go/tools/"+strings.TrimPrefix(strings.TrimSuffix(pat, "/..."), "./")) {
+							paths = append(paths, path)
+						}
+					}
+				}
+				ss := eng.sweepSafety(paths, os.Getenv("GOVC_SWEEP_ONLY"))
+				results = append(results, ss.results...)
+				sweepInfo = append(sweepInfo, ss.info)
+				sweepSafetyUnits = len(ss.results)
+			}
 			if sw == "sealed-switches" {
 				var paths []string
 				for _, pat := range pc.SweepPackages {
@@ -269,8 +285,47 @@ func cmdCheck(args []string) int {
 	} else {
 		fmt.Println("SMT files in", dir)
 	}
-	solveAll(obls, solveOpts{timeoutS: timeout, dir: dir, workers: 6, seed: seed})
 	baseline := readBaseline(filepath.Join(*verif, "baseline", *prop+".txt"))
+	// obligations of the zero-annotation safety sweep: most are unprovable by construction
+	// (arbitrary inputs). Outside -update-baseline only the ones recorded as discharged are
+	// attempted; with it, all are attempted once with a short timeout.
+	sweepNotAttempted := 0
+	{
+		var rest, sweepNew []*Obl
+		for _, o := range obls {
+			if !o.Sweep {
+				rest = append(rest, o)
+			} else if baseline[o.Name] {
+				rest = append(rest, o)
+			} else if *updateBaseline {
+				sweepNew = append(sweepNew, o)
+			} else {
+				sweepNotAttempted++
+			}
+		}
+		if len(sweepNew) > 0 {
+			solveAll(sweepNew, solveOpts{timeoutS: 3, dir: dir, workers: 8, seed: seed})
+			var undecided []string
+			for _, o := range sweepNew {
+				if o.Status == "unsat" {
+					rest = append(rest, o)
+				} else {
+					sweepNotAttempted++
+					undecided = append(undecided, fmt.Sprintf("%-8s %s  (%s)", o.Status, o.Name, o.Pos))
+				}
+			}
+			sort.Strings(undecided)
+			os.MkdirAll(filepath.Join(*verif, "sweeps"), 0o755)
+			os.WriteFile(filepath.Join(*verif, "sweeps", *prop+".safety-not-discharged.txt"), []byte("# safety-sweep obligations that do not discharge under arbitrary inputs (NOT claimed, NOT findings: most need a precondition)\n"+strings.Join(undecided, "\n")+"\n"), 0o644)
+		}
+		obls = rest
+	}
+	for _, si := range sweepInfo {
+		if si["name"] == "safety" {
+			si["obligations_generated_but_not_claimed"] = sweepNotAttempted
+		}
+	}
+	solveAll(obls, solveOpts{timeoutS: timeout, dir: dir, workers: 6, seed: seed})
 	// retry regressions at the thorough timeout before they count
 	if *tier == "quick" {
 		var retry []*Obl
